@@ -1292,14 +1292,21 @@ def shim_int(x=0, *a):
 
 
 def shim_isinstance(obj, cls):
-    if isinstance(obj, _Num):
-        clss = cls if isinstance(cls, tuple) else (cls,)
-        for c in clss:
-            if c is float and isinstance(obj, FloatShim):
+    # inside the shim-loaded modules `int` names the function shim_int and `float` the class FloatShim: translate both, also
+    # inside tuples, so that `isinstance(x, (int, Fraction))` written in the code under test means what it means natively
+    clss = cls if isinstance(cls, tuple) else (cls,)
+    out = []
+    for c in clss:
+        if isinstance(c, tuple):
+            if shim_isinstance(obj, c):
                 return True
-            if c is int and isinstance(obj, SymInt):
-                return True
-    return isinstance(obj, cls)
+        elif c is shim_int or c is int:
+            out += [int, SymInt]
+        elif c is FloatShim or c is float:
+            out += [float, FloatShim]
+        else:
+            out.append(c)
+    return isinstance(obj, tuple(out))
 
 
 def shim_range(*args):
